@@ -153,7 +153,7 @@ static inline Armor armor_parse(const std::string &text) {
       Bytes c; if (!b64_decode(l.substr(1), c) || c.size() != 3) { a.why = "malformed checksum"; return a; }
       a.has_crc = true; a.crc = ((uint32_t)c[0] << 16) | ((uint32_t)c[1] << 8) | c[2]; continue;
     }
-    if (l.empty()) { a.why = "blank line inside the armored data"; return a; }
+    if (l.empty()) continue; // white space inside the radix-64 data carries no meaning
     if (l.size() > a.max_line) a.max_line = l.size();
     if (l.size() > 76) { a.why = "line longer than 76 characters"; return a; }
     a.body_lines++; body += l;
